@@ -141,7 +141,7 @@ func execC05(c *Ctx) {
 	p := c.Plan
 	c07 := p.Scn == "C07"
 	em := newEventMon()
-	cx := startClusterRun(c, em, &healthMon{}, newMonoMon(ms(p.Cfg.GossipToDeadMs)))
+	cx := startClusterRun(c, em, &healthMon{}, newMonoMon(ms(p.Cfg.GossipToDeadMs)), newSelfMon())
 	tf := time.Duration(p.param("tf", int64(20*time.Second)))
 	c.Sim.RunUntil(tf+time.Millisecond, func() bool { return c.Failed() })
 	if c.Failed() {
